@@ -1,8 +1,12 @@
 /-
-C08 — what the match format does NOT hold (limits of the round trip that no reader can lift), as theorems about
-the model of the writer (`Score.fileView`, `Score.roundTrip` in Model/MatchTime.lean).
+C08 — the bookkeeping of the score reconstruction (no snote lost or duplicated; measures exactly for the bars
+that hold a stored note) and what the match format does NOT hold (limits of the round trip that no reader can
+lift), as theorems about the model (`reconstruct`, `Score.fileView`, `Score.roundTrip` in Model/MatchTime.lean).
 -/
 import PartituraModel.Model.MatchTime
+import PartituraModel.Proofs.C08Sort
+import Mathlib.Data.List.Perm.Basic
+import Mathlib.Data.List.Range
 import Mathlib.Tactic.Linarith
 import Mathlib.Tactic.NormNum
 
@@ -57,5 +61,63 @@ theorem barline_off_grid :
     linarith
   have h4 : (8 : Int) = 3 * z := by exact_mod_cast h3
   omega
+
+/-- **reconstruct_keeps_every_note.**  Whenever the reconstruction of the score succeeds — for every list of snotes,
+    time and key signature lines — each snote becomes exactly one note of the part: the indices of the notes are a
+    permutation of the indices of the snotes (none lost, none twice), in the order of `sort_snotes`; and a measure
+    is created for exactly the bar numbers that occur on the snotes, once each. -/
+theorem reconstruct_keeps_every_note (raw : List SNote) (ts : List TSLine) (ks : List (Rat × Int)) (r : Recon)
+    (h : reconstruct raw ts ks = some r) :
+    (r.notes.map (·.1)).Perm (List.range raw.length)
+    ∧ r.notes.map (·.1) = (sortSNotes ((List.range raw.length).zip raw)).map (·.1)
+    ∧ r.fallback.length = raw.length
+    ∧ r.barlines.map (·.1) = barNames (sortSNotes ((List.range raw.length).zip raw)) := by
+  unfold reconstruct at h
+  simp only [Option.bind_eq_bind, Option.bind_eq_some_iff, Option.pure_def, Option.some.injEq] at h
+  obtain ⟨first, _, _, _, bars, hb, notesFb, hn, _, _, _, _, hr⟩ := h
+  subst hr
+  have hidx : notesFb.map (fun y => y.1.1) = (sortSNotes ((List.range raw.length).zip raw)).map (·.1) := by
+    apply C08S.mapM_map _ _ _ _ _ _ hn
+    intro a b hab
+    cases hl : lookup a.2.measure bars with
+    | none => simp [hl] at hab
+    | some bt =>
+      simp only [hl, Option.bind_some, Option.some.injEq] at hab
+      rw [← hab]
+  have hbars : bars.map (·.1) = barNames (sortSNotes ((List.range raw.length).zip raw)) := by
+    have := C08S.mapM_map _ (fun y : Int × Rat => y.1) (fun b : Int => b) ?_ _ _ hb
+    · simpa using this
+    · intro a b hab
+      cases hf : firstOfBar (sortSNotes ((List.range raw.length).zip raw)) a with
+      | none => simp [hf] at hab
+      | some n =>
+        simp only [hf, Option.bind_some, Option.some.injEq] at hab
+        rw [← hab]
+  have hperm : ((sortSNotes ((List.range raw.length).zip raw)).map (·.1)).Perm (List.range raw.length) := by
+    have hp : (sortSNotes ((List.range raw.length).zip raw)).Perm ((List.range raw.length).zip raw) :=
+      C08S.sortBy_perm _ _
+    have := hp.map Prod.fst
+    rwa [List.map_fst_zip (by simp)] at this
+  have hlen : notesFb.length = raw.length := by
+    have h1 := congrArg List.length hidx
+    have h2 := hperm.length_eq
+    simp only [List.length_map, List.length_range] at h1 h2
+    omega
+  refine ⟨?_, ?_, ?_, ?_⟩
+  · simp only [List.map_map]
+    exact hidx ▸ hperm
+  · simp only [List.map_map]
+    exact hidx
+  · simp only [List.length_map]
+    exact hlen
+  · simp only [List.map_map]
+    rw [← hbars]
+    apply List.map_congr_left
+    intro x _
+    rfl
+
+/-- non-vacuity: the reconstruction of the file of `emptyBarsA` succeeds, with its four snotes -/
+example : ((emptyBarsA.roundTrip [(0, 1), (2, 2), (8, 4), (11, 1)] []).map fun r => r.notes.map (·.1)) = some [0, 1, 2, 3] := by
+  decide +kernel
 
 end C08
